@@ -44,6 +44,10 @@ type Conn struct {
 	in          chan *Line
 	out         chan string
 	connected   bool
+	// cmu guards connected on its own, so that Connected() never waits
+	// for mu: Close holds mu until every handler has returned, and a
+	// handler may well ask whether the client is still connected.
+	cmu sync.RWMutex
 
 	// Capabilities supported by the server
 	supportedCaps *capSet
@@ -250,9 +254,16 @@ func Client(cfg *Config) *Conn {
 // an IRC server. It becomes true when the TCP connection is established,
 // and false again when the connection is closed.
 func (conn *Conn) Connected() bool {
-	conn.mu.RLock()
-	defer conn.mu.RUnlock()
+	conn.cmu.RLock()
+	defer conn.cmu.RUnlock()
 	return conn.connected
+}
+
+// setConnected changes the connected flag; callers hold conn.mu.
+func (conn *Conn) setConnected(c bool) {
+	conn.cmu.Lock()
+	conn.connected = c
+	conn.cmu.Unlock()
 }
 
 // Config returns a pointer to the Config struct used by the client.
@@ -431,8 +442,8 @@ func (conn *Conn) internalConnect(ctx context.Context) error {
 		conn.sock = s
 	}
 
+	conn.setConnected(true)
 	conn.postConnect(ctx, true)
-	conn.connected = true
 	return nil
 }
 
@@ -641,7 +652,7 @@ func (conn *Conn) closeFor(ctx context.Context) error {
 		return nil
 	}
 	logging.Info("irc.Close(): Disconnected from server.")
-	conn.connected = false
+	conn.setConnected(false)
 	err := conn.sock.Close()
 	if conn.die != nil {
 		conn.die()
